@@ -336,13 +336,13 @@ def run(chk):
     run_and_validate(chk, [hist_to_script(h, kind, rng) for h in cover], "tlc-state-cover")
     # the same paths with the real capacities brought down to the model's (fillers), so that the
     # model's overflow behaviours are overflow behaviours of the real constants 16 / 20
-    infl = rng.sample(hists, min(len(hists), 40 if not thorough else 1500))
+    infl = rng.sample(hists, min(len(hists), (60 if kind == "prov" else 25) if not thorough else 1500))
     run_and_validate(chk, [hist_to_script(h, kind, rng, inflate=True) for h in infl], "tlc-state-cover-at-capacity")
     # transition cover: every kind of action appended to a sample of state-cover paths
     ext = []
     for h in rng.sample(hists, min(len(hists), 40 if not thorough else 1200)):
         for a in EXT[kind]:
-            ext.append(hist_to_script(h, kind, rng, inflate=rng.random() < 0.1, extra=[a]))
+            ext.append(hist_to_script(h, kind, rng, inflate=rng.random() < (0.15 if kind == "prov" else 0.05), extra=[a]))
     run_and_validate(chk, ext, "tlc-transition-cover")
     n = 250 if not thorough else 6000
     run_and_validate(chk, [random_behaviour(rng, chk.pid) for _ in range(n)], "random-256bit")
